@@ -1786,8 +1786,41 @@ func c16TypedValues(r *Rng) *c16Typed {
 	}
 	t.Roa.AbacoUnwrapOptions = c16Unwrap(r)
 	// record lengths
-	t.Status.Npresamp = r.Range(1, 5000)
-	t.Status.Nsamples = t.Status.Npresamp + r.Range(1, 20000)
+	// record lengths: ordinary pairs, the boundaries of what ConfigurePulseLengths accepts (it needs
+	// npre >= 1 and nsamp >= npre+1), large values, and ILLEGAL saved pairs, which the start-up replaces
+	// by its documented defaults (the Lean model has that rule)
+	switch c := r.Intn(100); {
+	case c < 25:
+		t.Status.Npresamp = r.Pick(1, 2, 3, 500, r.Range(1, 5000))
+		t.Status.Nsamples = t.Status.Npresamp + 1
+	case c < 35:
+		t.Status.Npresamp = 3
+		t.Status.Nsamples = r.Pick(4, 5, 100)
+	case c < 45:
+		t.Status.Npresamp = r.Pick(100000, 1<<20, 1<<30)
+		t.Status.Nsamples = t.Status.Npresamp + r.Pick(1, 2, 1<<20)
+	case c < 78:
+		t.Status.Npresamp = r.Range(1, 5000)
+		t.Status.Nsamples = t.Status.Npresamp + r.Range(1, 20000)
+	default:
+		n := r.Range(1, 5000)
+		switch r.Intn(7) {
+		case 0:
+			t.Status.Npresamp, t.Status.Nsamples = 0, r.Range(0, 2000)
+		case 1:
+			t.Status.Npresamp, t.Status.Nsamples = -r.Range(1, 50), r.Range(1, 2000)
+		case 2:
+			t.Status.Npresamp, t.Status.Nsamples = n, n
+		case 3:
+			t.Status.Npresamp, t.Status.Nsamples = n, n-1
+		case 4:
+			t.Status.Npresamp, t.Status.Nsamples = n, 0
+		case 5:
+			t.Status.Npresamp, t.Status.Nsamples = n, -1
+		default:
+			t.Status.Npresamp, t.Status.Nsamples = 0, 0
+		}
+	}
 	t.Status.SamplePeriod = time.Duration(r.Range(1, 1000000)) * time.Nanosecond
 	t.Status.Running = r.Bool()
 	t.Status.SourceName = c16PickS(r, "Triangles", "SimPulses", "Lancero", "")
@@ -1868,8 +1901,8 @@ func c16GenR(r *Rng, tier string, idx int) (string, func() string) {
 	if rej == "" {
 		rej = "-"
 	}
-	in := fmt.Sprintf("R old %d nch %d ntrig %d rej %s have %d %s h %s", b2i(t.OldFile), t.Nchan, len(t.Trig), rej, len(have),
-		strings.Join(have, " "), hex.EncodeToString(sum[:6]))
+	in := fmt.Sprintf("R old %d nch %d ntrig %d st %d %d rej %s have %d %s h %s", b2i(t.OldFile), t.Nchan, len(t.Trig),
+		t.Status.Npresamp, t.Status.Nsamples, rej, len(have), strings.Join(have, " "), hex.EncodeToString(sum[:6]))
 	in = strings.Join(strings.Fields(in), " ")
 	run := func() string {
 		home := filepath.Join(c16Work(), fmt.Sprintf("r%d_%d", idx, os.Getpid()))
@@ -1989,12 +2022,14 @@ func c16CompareRestored(t *c16Typed, su c16Startup) string {
 	}
 	if t.Have["STATUS"] {
 		// record lengths (the rest of STATUS describes the running source, reset at start-up)
+		// reported as npre/nsamp: the Lean driver judges them against the saved pair (legal pairs must come
+		// back unchanged) and against the start-up's defaulting rule (illegal pairs)
 		var st dastard.ServerStatus
-		ok := 0
-		if json.Unmarshal([]byte(upd["STATUS"]), &st) == nil && st.Nsamples == t.Status.Nsamples && st.Npresamp == t.Status.Npresamp {
-			ok = 1
+		if json.Unmarshal([]byte(upd["STATUS"]), &st) == nil {
+			fmt.Fprintf(&sb, " status %d/%d", st.Npresamp, st.Nsamples)
+		} else {
+			sb.WriteString(" status ?")
 		}
-		fmt.Fprintf(&sb, " status %d", ok)
 	}
 	if t.Have["WRITING"] {
 		var ws dastard.WritingState
